@@ -267,9 +267,11 @@ class TimeStamp(TdmsType):
         if not isinstance(value, np.datetime64):
             value = np.datetime64(value, 'us')
         self.value = value
-        epoch_delta = value - self._tdms_epoch
+        # Use microseconds and integer division, as differences of nanosecond resolution values
+        # can overflow and are too large to be divided exactly as floats
+        epoch_delta = value.astype('datetime64[us]') - self._tdms_epoch
 
-        seconds = int(epoch_delta / np.timedelta64(1, 's'))
+        seconds = int(epoch_delta // np.timedelta64(1, 's'))
         remainder = epoch_delta - np.timedelta64(seconds, 's')
         zero_delta = np.timedelta64(0, 's')
         if remainder < zero_delta:
